@@ -138,6 +138,8 @@ def make_device(d, lines=None):
 
 def new_arm(core_spec, lines=None):
     """core_spec: {'config': overrides, 'devices': [...], 'regs': state, 'reset': bool}"""
+    from . import solo as _solo
+    _solo.constructed[0] += 1
     arm = ArmV6(config_path(core_spec.get('config')))
     for d in core_spec.get('devices', []):
         arm.mem.memories.append(MemoryController(make_device(d, lines), d['begin'], d['end']))
